@@ -99,6 +99,33 @@ func c12Script(k int, tag string, seedRng *Rng, cfg Config, steps int, paths []s
 			per = append(per, w.m.deleted[len(w.m.deleted)-1])
 		}
 		obs := w.Observe(ObsOpts{Queries: qs, PerUUID: per})
+		// refinements with arguments that cannot be evaluated, of results that are empty or not:
+		// whether the call fails, and how, must not depend on the field being indexed
+		for i := 0; i < 3; i++ {
+			base := Query{"Tag", "=", -12345} // matches nothing
+			if rng.Bool() && len(qs) > 0 {
+				base = qs[rng.Intn(len(qs))]
+			}
+			b := bad[rng.Intn(len(bad))]
+			conn := pick(rng, []string{"and", "and", "or"})
+			var ln int
+			var err error
+			w.call("Search."+conn, func() {
+				s := w.db.Search(&Rec{}, base.Path, base.Op, base.Probe)
+				if conn == "and" {
+					s = s.And(b.Path, b.Op, b.Probe)
+				} else {
+					s = s.Or(b.Path, b.Op, b.Probe)
+				}
+				err, ln = s.Err(), s.Len()
+			})
+			key := fmt.Sprintf("chain:%s %s %s", base.String(), conn, b.String())
+			if err != nil {
+				obs[key] = "err:" + errClass(err)
+			} else {
+				obs[key] = fmt.Sprintf("len=%d", ln)
+			}
+		}
 		// integrity check once no write is pending: right after a flush
 		// or a close/reopen, which leave nothing pending in any configuration
 		// (a single-object flush leaves the other pending writes pending)
@@ -284,6 +311,11 @@ func obsKeyClass(key string) string {
 			return "search(" + parts[1] + ")"
 		}
 		return "search"
+	case strings.HasPrefix(key, "chain:"):
+		if strings.Contains(key, " or ") {
+			return "chain-or(bad-arguments)"
+		}
+		return "chain-and(bad-arguments)"
 	case strings.HasPrefix(key, "get:"):
 		return "get"
 	case strings.HasPrefix(key, "exist:"):
